@@ -71,6 +71,12 @@ def f16_ref(W, b, x, a, fkind):
         return (sc, x.sum() > 0.1)
     if fkind == "const":
         return torch.full((2,), 1.75, dtype=x.dtype) + 0.0 * a
+    if fkind == "branch":
+        # data-dependent python control flow: on one side of x.sum() = 0.2 the output is a fresh constant that is
+        # not connected to any parameter, on the other side it depends on all of them
+        if float(x.detach().sum()) > 0.2:
+            return vec
+        return torch.zeros(2, dtype=x.dtype)
     raise AssertionError(fkind)
 
 
